@@ -25,6 +25,7 @@ in the matching arm (features +1, rules += f.rules.len(), scenarios += count_sce
 on Ok; parser_errors +1 on Err); (R5) EXECUTE leaves its loop only on IS_FINISHED, whose flag is stored after the
 ParsingFinished emission.
 Not decided: equality of the counts with what a concrete parser delivered; nesting under Normalize (C11).
+Added after the second seeded round: (R6) the bracket bookkeeping is keyed by Source values whose equality / hash are the identity of the shared allocation (Arc::ptr_eq / Arc::as_ptr).
 """
 DECLINED = ["numeric equality of ParsingFinished counts with a concrete parser's output", "nesting after Normalize (C11)"]
 ASSUMPTIONS = ["HashMap::entry(..).or_insert_with(f) calls f exactly when the key is absent"]
